@@ -375,6 +375,9 @@ const c01Rule = "syntax tree generated by grammar level x three printings (minim
 // variable names: one-letter and longer ones, some whose first and last characters coincide
 var c01VarNames = []string{"a", "bb", "tot", "d_1", "eve"}
 
+// C01 alone also uses a name that can only be written as a quoted identifier with two escapes
+var c01AllVarNames = append(append([]string{}, c01VarNames...), "q\"r\"s")
+
 func genC01Value(t *rapid.T) val {
 	switch rapid.IntRange(0, 11).Draw(t, "vk") {
 	case 0, 1, 2:
@@ -402,7 +405,16 @@ func genC01Value(t *rapid.T) val {
 }
 
 func c01GenCfg() *genCfg {
-	return &genCfg{vars: c01VarNames, funcs: []string{"Tup", "Tup", "Max", "Min", "Sum", "If", "Abs", "Array", "Contains", "Choose"}, consts: defaultConst, maxArgs: 4}
+	return &genCfg{vars: c01AllVarNames, funcs: []string{"Tup", "Tup", "Max", "Min", "Sum", "If", "Abs", "Array", "Contains", "Choose"}, consts: defaultConst, maxArgs: 4, identGen: c01IdentGen}
+}
+
+// c01IdentGen writes an identifier plain or as a quoted identifier ("..." with doubled inner quotes); a name that
+// is not a plain word can only be written quoted.
+func c01IdentGen(t *rapid.T, base string) string {
+	if strings.Contains(base, "\"") || rapid.IntRange(0, 7).Draw(t, "quoted") == 0 {
+		return "\"" + strings.ReplaceAll(base, "\"", "\"\"") + "\""
+	}
+	return base
 }
 
 func TestC01_Rapid(t *testing.T) {
@@ -416,7 +428,7 @@ func TestC01_Rapid(t *testing.T) {
 		texts = append(texts, spellRandom(rt, printTokens(tree, parensRandom, func() bool { return rapid.IntRange(0, 4).Draw(rt, "xp") == 0 })))
 		texts = append(texts, spellRandom(rt, printTokens(tree, parensFull, nil)))
 		var vars []binding
-		for _, n := range c01VarNames {
+		for _, n := range c01AllVarNames {
 			vars = append(vars, binding{n, genC01Value(rt)})
 		}
 		c := c01Case{tree, texts, vars, rapid.IntRange(0, 4).Draw(rt, "safe") == 0}
